@@ -109,6 +109,26 @@ def h_chained(ctx, hier, N, n_nan, n_unknown, unknown_handling):
             continue
         lead = next(g for g, m in exp.items() if v in m)
         ctx.require(o == lead, "C18.transform-not-leader", f"value {v!r} transformed to {o!r}, its group leader is {lead!r}")
+    # ---------------- two features of one object are merged by their OWN frequencies (seed5-C18: a shared default order)
+    if not n_nan and not n_unknown and hier != "numeric":
+        gcol = [leaves[i % len(leaves)] for i in range(total)]
+        X2 = pd.DataFrame({"f": pd.Series(col, dtype=object), "g": pd.Series(gcol, dtype=object)})
+
+        def _fit(feats):
+            ch = [GroupedList({g_: list(m) + [g_] for g_, m in lvl.items()}) for lvl in levels]
+            dd = ChainedDiscretizer(feats, min_freq=mf, chained_orders=ch, unknown_handling=unknown_handling, copy=True, verbose=False)
+            dd.fit(X2, y)
+            return {ft: ({l: sorted(map(str, m)) for l, m in dd.values_orders[ft].content.items()} if ft in dd.features else None) for ft in feats}
+
+        try:
+            both, alone_g = _fit(["f", "g"]), _fit(["g"])
+        except Violation:
+            raise
+        except Exception as e:
+            ctx.require(False, "C08.internal-error", f"ChainedDiscretizer.fit on two features raised {type(e).__name__}: {str(e)[:160]}")
+        alone_f = {l: sorted(map(str, m)) for l, m in vo.content.items()}
+        ctx.require(both["f"] == alone_f, "C18.depends-on-other-feature", f"feature f fitted next to g: {both['f']}; alone: {alone_f} (counts {dict(zip(leaves, counts))})")
+        ctx.require(both["g"] == alone_g["g"], "C18.depends-on-other-feature", f"uniform feature g fitted next to f: {both['g']}; alone: {alone_g['g']} (f counts {dict(zip(leaves, counts))})")
     return dict(counters={"ok": 1}, sample=dict(hier=hier, counts=counts, n_nan=n_nan, groups=exp), result=dict(groups=exp))
 
 
@@ -127,7 +147,7 @@ def obligations(tier):
             jobs.append(dict(hier="numeric", N=N, n_nan=n_nan, n_unknown=1, unknown_handling="raise"))
     return [
         Obligation(
-            name="O18.1 every known value kept; a value is its own modality iff its share >= min_freq, otherwise merged into its ancestor (recursively); unknown values per unknown_handling; transform outputs leaders",
+            name="O18.1 every known value kept; a value is its own modality iff its share >= min_freq, otherwise merged into its ancestor (recursively); unknown values per unknown_handling; transform outputs leaders; a second (uniform) feature fitted by the same object does not change either grouping",
             harness=h_chained, jobs=jobs,
             encodes=["ChainedDiscretizer.__init__", "ChainedDiscretizer._prepare_data", "ChainedDiscretizer.fit", "GroupedList.group/get_group/sort_by", "BaseDiscretizer.transform/_transform_qualitative/_check_new_values"],
             bounds=f"4 hierarchies (1-3 levels, uneven fan-out), N <= {6 if quick else 10} rows with solver-chosen per-leaf counts (0 = never observed), 0/1 NaN row, 0/1 unknown value (a string, or a number in a column of numeric codes), "
